@@ -26,8 +26,9 @@ def lit(rng: random.Random, t: str) -> str:
 
 
 class ProgGen:
-	def __init__(self, rng: random.Random, allow_hetero: bool = False) -> None:
+	def __init__(self, rng: random.Random, allow_hetero: bool = False, modelled: bool = False) -> None:
 		self.rng = rng
+		self.modelled = modelled    # only constructs of the Lean class model: no Enum, no Generic, no nested classes
 		self.allow_hetero = allow_hetero   # at most one list literal mixing classes per inference session (see c03_expr.Gen.session)
 		self.n = 0
 		self.lines: list[str] = []
@@ -78,17 +79,17 @@ class ProgGen:
 	def generate(self) -> tuple[str, dict[str, int]]:
 		rng = self.rng
 		out: list[str] = []
-		use_enum = rng.random() < 0.6
-		use_generic = rng.random() < 0.5
+		use_enum = rng.random() < 0.6 and not self.modelled
+		use_generic = rng.random() < 0.5 and not self.modelled
 		imports = []
 		if use_enum:
 			imports.append('from enum import Enum')
 		if use_generic:
 			imports.append('from typing import Generic, TypeVar')
-		use_iter = rng.random() < 0.6
+		use_iter = rng.random() < (0.9 if self.modelled else 0.6)
 		if use_iter:
 			imports.append('from collections.abc import Iterator')
-		use_shadow = rng.random() < 0.7
+		use_shadow = rng.random() < 0.7 and not self.modelled
 		if use_shadow:
 			imports.append('from typing import ClassVar')
 		out += imports
@@ -259,8 +260,8 @@ class ProgGen:
 		return src, self.hist
 
 
-def generate(rng: random.Random, allow_hetero: bool = False) -> tuple[str, str, list[list[Any]], dict[str, int]]:
-	g = ProgGen(rng, allow_hetero)
+def generate(rng: random.Random, allow_hetero: bool = False, modelled: bool = False) -> tuple[str, str, list[list[Any]], dict[str, int]]:
+	g = ProgGen(rng, allow_hetero, modelled)
 	src, hist = g.generate()
 	args = [[rng.choice([0, 1, 3, 9]), rng.random() < 0.5, rng.choice(['', 'ab', 'x y']), rng.choice([0.5, 2.0])] for _ in range(3)]
 	return src, g.entry, args, hist
